@@ -386,6 +386,10 @@ class C18(Prop):
                 continue
             if any(pn == "self" for t in sigs["tasks"] for pn, _ in t["params"]):
                 continue      # a parameter named 'self' cannot be delivered at all: F-C09e (C09's finding)
+            if any(a["positional"] and a["default"] is None and a["incrementable"]
+                   for c in specs for a in c["args"]):
+                continue      # a required positional that is a counter can never be supplied (C01Spec
+                              # positional_fillable; its flag is F-C07e): no intended invocation exists
             inv = pc.gen_invocation(rng, specs, dash_values=False)
             if any(o["form"] == "glued" and "=" in o["val"].get("s", "")
                    for c in inv for o in pc.flat_occs(c["occs"])):
